@@ -74,6 +74,18 @@ def exact_defs(e):
         if body is None:
             continue
         e = z3.substitute_funs(e, (d, body))
+    # f_evm_exp with a small constant exponent is read as the repeated product
+    reps = []
+    for t in _walk([e]):
+        if z3.is_app(t) and t.num_args() == 2 and t.decl().kind() == z3.Z3_OP_UNINTERPRETED and t.decl().name().startswith("f_evm_exp"):
+            k = t.arg(1)
+            if z3.is_bv_value(k) and k.as_long() <= 16 and not z3.is_bv_value(t.arg(0)):
+                prod = z3.BitVecVal(1, t.size())
+                for _ in range(k.as_long()):
+                    prod = prod * t.arg(0)
+                reps.append((t, prod))
+    if reps:
+        e = z3.substitute(e, *reps)
     return e
 
 
